@@ -915,12 +915,23 @@ class AxEnv:
                     m["adr"] = ((slot << sh) | rng.getrandbits(sh)) & ((1 << inst.m_aws[i]) - 1)
                     m["aw"], m["w"] = 1, 1
                     m["wdelay"] = rng.choice((0, 0, 0, 1, 3))
+                    # W presented before its AW (legal), by more than the timeout, towards an absent slave: the
+                    # timeout answers the lone W while no AW has been accepted
+                    m["awdelay"] = 0
+                    if slot == k and rng.random() < 0.5:
+                        t_ = inst.t or 4
+                        m["wdelay"] = 0
+                        m["awdelay"] = rng.choice((1, t_, t_ + 1, t_ + 3, 2 * t_ + 4))
             if m["st"] == "addr":
                 wv = m["w"]
                 if m["w"] and m.get("wdelay", 0) > 0 and m["aw"]:
                     m["wdelay"] -= 1
                     wv = 0
-                out += [m["aw"], m["adr"], wv, 1 if rng.random() < 0.2 else 0]
+                awv_ = m["aw"]
+                if m["aw"] and m.get("awdelay", 0) > 0:
+                    m["awdelay"] -= 1
+                    awv_ = 0
+                out += [awv_, m["adr"], wv, 1 if rng.random() < 0.2 else 0]
             elif m["st"] == "resp":
                 out += [0, m["adr"], 0, 1 if rng.random() < 0.7 else 0]
             else:
@@ -1091,7 +1102,63 @@ class AxMonitor:
             return m1 or m2
         if error != (e1 | e2):
             return "error=%d, expected %d (write expiry %d, read expiry %d; timeout %d)" % (error, e1 | e2, e1, e2, self.t)
-        return None
+        return self._after(mw, mr, vw, vr, tsw, tsr, gw, gr)
+
+    # -- "after a timeout the interconnect accepts and completes further requests from every master normally":
+    # outstanding = accepted - delivered requests as seen at the owner's port (never negative, 8 bit).  While it is 0
+    # the interconnect must be exactly as after reset: the request is routed to the slave its CURRENT address
+    # decodes to, and an idle owner hands the channel over to a waiting master in the next cycle.
+    out_w = out_r = 0
+    pend_grant = (None, None)
+
+    @staticmethod
+    def _ctr(c, req, resp):
+        if req and resp:
+            return c
+        if req and c != 255:
+            return c + 1
+        if resp and c != 0:
+            return c - 1
+        return c
+
+    def _after(self, mw, mr, vw, vr, tsw, tsr, gw, gr):
+        n, k, sh = self.n, self.k, self.sh
+        msg = None
+        pw, pr = self.pend_grant
+        if pw is not None and gw == pw:
+            msg = "write channels: master %d was idle with nothing outstanding while another master requested, yet it still " \
+                  "owns the channels (grant stuck)" % gw
+        elif pr is not None and gr == pr:
+            msg = "read channels: master %d was idle with nothing outstanding while another master requested, yet it still " \
+                  "owns the channels (grant stuck)" % gr
+        awv, awa, wv, brdy = mw[gw]
+        arv, ara, rrdy = mr[gr]
+        if not msg and self.out_w == 0:
+            for j in range(k):
+                want = (int(bool(awv and (awa >> sh) == j)), int(bool(wv and (awa >> sh) == j)))
+                if (tsw[j][0], tsw[j][2]) != want:
+                    msg = "nothing outstanding on the write channels, owner (master %d) drives aw.valid=%d w.valid=%d addr=%#x: " \
+                          "slave %d sees aw.valid=%d w.valid=%d, expected %r" % (gw, awv, wv, awa, j, tsw[j][0], tsw[j][2], want)
+                    break
+        if not msg and self.out_r == 0:
+            for j in range(k):
+                want = int(bool(arv and (ara >> sh) == j))
+                if tsr[j][0] != want:
+                    msg = "nothing outstanding on the read channels, owner (master %d) drives ar.valid=%d addr=%#x: slave %d sees " \
+                          "ar.valid=%d, expected %d" % (gr, arv, ara, j, tsr[j][0], want)
+                    break
+        awr_, wr_, bv_, _ = vw[gw]
+        arr_, rv_, _, _, rl_ = vr[gr]
+        pw = pr = None
+        if n > 1:
+            if self.out_w == 0 and not (awv or wv or bv_) and any((mw[i][0] or mw[i][2]) for i in range(n) if i != gw):
+                pw = gw
+            if self.out_r == 0 and not (arv or rv_) and any(mr[i][0] for i in range(n) if i != gr):
+                pr = gr
+        self.pend_grant = (pw, pr)
+        self.out_w = self._ctr(self.out_w, bool(awv and awr_), bool(bv_ and brdy))
+        self.out_r = self._ctr(self.out_r, bool(arv and arr_), bool(rv_ and rrdy and (rl_ or not self.full)))
+        return msg
 
 
 # ---------------------------------------------------------------------------------------------------------
